@@ -96,7 +96,7 @@ WITNESSES = {   # the witnesses of Properties_C01.C01_val_implies_ana_refuted, a
     "w_max_no_operand": '<apply><eq/><ci>x</ci><apply><max/></apply></apply>',
     "w_rem_no_operand": '<apply><eq/><ci>x</ci><apply><rem/></apply></apply>',
     "w_min_one_operand": '<apply><eq/><ci>x</ci><apply><min/><ci>y</ci></apply></apply>',
-    "w_diff_non_ci": '<apply><eq/><apply><diff/><bvar><ci>t</ci></bvar><apply><plus/><ci>x</ci><ci>y</ci></apply></apply><ci>y</ci></apply>',
+    "w_diff_non_ci": '<apply><eq/><apply><diff/><bvar><ci>t</ci></bvar><cn cellml:units="dimensionless">1</cn></apply><ci>y</ci></apply>',
     "w_bare_ci": '<ci>x</ci>',
     "w_not_equation_min": '<apply><plus/><ci>x</ci><min/></apply>',
     "w_empty_piecewise": '<apply><eq/><ci>x</ci><piecewise/></apply>',
@@ -122,7 +122,7 @@ def math_part(ctx, drv, mdl, quick):
     wd = ctx.workdir
     off = ctx.seed
     # --- the model enumerates; per verdict class a capped, seed-dependent sample goes to the library
-    sets = [("d1", 0, 150 if quick else 700), ("d2", 3 if quick else 4, 120 if quick else 500), ("d3", 2 if quick else 3, 100 if quick else 400)]
+    sets = [("d1", 0, 60 if quick else 400), ("d2", 3 if quick else 4, 100 if quick else 500), ("d3", 2 if quick else 3, 80 if quick else 400)]
     procs = []
     for name, nl, cap in sets:
         procs.append((name, subprocess.Popen([mdl, "enum", name, str(nl), str(cap), str(off)], stdout=subprocess.PIPE,
@@ -370,15 +370,12 @@ def units_cycle(desc_models):
     return False
 
 
-def describe(drv, path, base, workdir):
-    lf = os.path.join(workdir, "describe.in")
-    with open(lf, "w") as f:
-        f.write("%s\t%s\n" % (path, base))
-    rc, out = vf.sh([drv, "describe", lf], timeout=120, env=env_with(ASAN_OPTIONS=ASAN_FAST, UBSAN_OPTIONS=UBSAN_FAST))
+def decode_describe(out):
     models = []
     dec = json.JSONDecoder()
     s = out.strip()
     i = 0
+    hx = lambda h: bytes.fromhex(h).decode("utf-8", "replace")
     while True:
         j = s.find("{", i)
         if j < 0:
@@ -388,159 +385,186 @@ def describe(drv, path, base, workdir):
         except ValueError:
             break
         for u in obj.get("units", []):
-            u["name"] = bytes.fromhex(u["name"]).decode("utf-8", "replace")
-            u["refs"] = [bytes.fromhex(r).decode("utf-8", "replace") for r in u["refs"]]
-        obj["math"] = [bytes.fromhex(m).decode("utf-8", "replace") for m in obj.get("math", [])]
-        for c in obj.get("vars", []):
-            c[:] = [[bytes.fromhex(n).decode("utf-8", "replace"), bytes.fromhex(v).decode("utf-8", "replace")] for n, v in c]
+            u["name"] = hx(u["name"])
+            u["refs"] = [hx(r) for r in u["refs"]]
+            u["dangling"] = [hx(r) for r in u.get("dangling", [])]
+        obj["math"] = [hx(m) for m in obj.get("math", [])]
+        obj["vars"] = [[[hx(n), hx(v)] for n, v in c] for c in obj.get("vars", [])]
         models.append(obj)
         i = j + end
     return models
 
 
-def model_verdicts(mdl, models, workdir):
-    """run the extracted model on every <math> document of the described models; returns set of ana verdicts, set of pow verdicts"""
+def describe_many(drv, items, workdir):
+    """items: list of (path, base) -> list of model descriptions (one list per item)"""
+    if not items:
+        return []
+    outs = run_sharded(drv, "describe", ["%s\t%s" % (p, b) for p, b in items], workdir, "describe",
+                       env_with(ASAN_OPTIONS=ASAN_FAST, UBSAN_OPTIONS=UBSAN_FAST))
+    return [decode_describe(o) for o in outs]
+
+
+def model_verdicts_many(mdl, descs, workdir):
+    """the extracted model on every <math> document of every described input.
+    returns per input: dict mode-letter -> (set of ana verdicts, set of pow verdicts)"""
     lines = []
-    for m in models:
-        maths = m.get("math", [])
-        varsets = m.get("vars", [])
-        for idx, s in enumerate(maths):
-            root = dm.parse_xml(("<r>" + s + "</r>").encode())
-            if root is None:
-                continue
-            env = varsets[idx] if idx < len(varsets) else []
-            for e in root:
-                if isinstance(e.tag, str) and e.tag == "{%s}math" % dm.MATHML:
-                    lines.append("V %d %s %s" % (len(env), " ".join("%s %s" % (dm._hx(n), dm._hx(v)) for n, v in env), dm.math_tokens(e)))
+    owner = []
+    for k, models in enumerate(descs):
+        for m in models:
+            maths = m.get("math", [])
+            varsets = m.get("vars", [])
+            for idx, s in enumerate(maths[:40]):
+                root = dm.parse_xml(("<r>" + s + "</r>").encode())
+                if root is None:
+                    continue
+                env = varsets[idx] if idx < len(varsets) else []
+                for e in root:
+                    if isinstance(e.tag, str) and e.tag == "{%s}math" % dm.MATHML:
+                        lines.append("V %d %s %s" % (len(env), " ".join("%s %s" % (dm._hx(n), dm._hx(v)) for n, v in env), dm.math_tokens(e)))
+                        owner.append((k, m["label"][0]))
+    res = [dict() for _ in descs]
     if not lines:
-        return set(), set()
+        return res
     evf = os.path.join(workdir, "classify.eval")
     with open(evf, "w") as f:
-        f.write("".join(l + "\n" for l in lines[:400]))
-    rc, out = vf.sh([mdl, "eval", evf], timeout=300)
-    ana, pw = set(), set()
-    for l in out.split("\n"):
-        f = dict(t.split("=", 1) for t in l.split() if "=" in t)
+        f.write("".join(l + "\n" for l in lines))
+    rc, out = vf.sh([mdl, "eval", evf], timeout=900)
+    ol = out.split("\n")
+    for i, (k, letter) in enumerate(owner):
+        f = dict(t.split("=", 1) for t in (ol[i].split() if i < len(ol) else []) if "=" in t)
+        a, pw = res[k].setdefault(letter, (set(), set()))
         if "ana" in f:
-            ana.add(f["ana"])
+            a.add(f["ana"])
             pw.add(f.get("pow", "none"))
-    return ana, pw
+            if f.get("pu") == "1":
+                pw.add("exponent-unavailable")
+    return res
 
 
-def classify(ctx, drv, mdl, path, base, mode, d, order, bang, stage):
-    """returns finding id or None for the death in `stage` of input `path`"""
+NULL_KINDS = ("UB:member", "SEGV-null", "UB:reference_binding_to_null", "UB:load_of_null", "UB:null_pointer")
+
+
+def classify(mode, d, bang, stage, models, verdicts):
+    """finding id (or None) for the death in `stage`: a predicate over the INPUT (as parsed: units graph, MathML shape
+    decided by the extracted model, outcome of import resolution) plus the dying stage and the kind of death"""
     v = d[stage]
     kind = bang.get("kind", "")
     frames = bang.get("frames", "")
-    models = describe(drv, path, base, ctx.workdir)
-    mine = [m for m in models if m["label"].startswith(mode)]
+    top = frames.split(";")[0]
+    mine = [m for m in models if m["label"].startswith(mode)] or models
+    ana, pw = verdicts.get(mode, (set(), set()))
     # K3: a recursive unit reducer on a cyclic units graph -> stack exhaustion
-    if v.startswith("CRASH") and kind == "stack-overflow" and stage in K3_STAGES and units_cycle(mine or models):
-        return "C01-K3-units-cycle", "stage %s: stack exhaustion in %s on a cyclic units graph" % (stage, frames.split(";")[0])
+    if v.startswith("CRASH") and kind == "stack-overflow" and stage in K3_STAGES and units_cycle(mine):
+        return "C01-K3-units-cycle", "stage %s: stack exhaustion (%s) on a cyclic units graph" % (stage, top)
+    # a units whose <unit> references a name that is neither standard nor defined: referencedUnits(model, nullptr)
+    if v.startswith("CRASH") and kind.startswith(NULL_KINDS) and "referencedUnits" in frames \
+            and any(u["dangling"] for m in mine for u in m.get("units", [])):
+        return "C01-Kdangling-units-reference", "stage %s: null dereference in referencedUnits on a dangling units reference" % stage
     # importer: flattenModel after resolveImports reported failure
     if v.startswith("CRASH") and stage == "F" and d.get("I", "").startswith("f"):
-        return "C01-Kflatten-after-failed-resolve", "flattenModel dies (%s) after resolveImports returned false" % frames.split(";")[0]
-    if stage in ANALYSE_STAGES and d.get(ANALYSE_STAGES[stage], "i0" if stage == "FA" and "FV" not in d else "") == "i0":
-        ana, pw = model_verdicts(mdl, mine, ctx.workdir)
-        if v.startswith("THROW(St16invalid_argument)") and "invalid_argument" in pw:
-            return "C01-Kstod-power-exponent", "uncaught std::invalid_argument from the power-exponent evaluation"
-        if v.startswith("THROW(St12out_of_range)") and "out_of_range" in pw:
-            return "C01-Kstod-power-exponent", "uncaught std::out_of_range from the power-exponent evaluation"
-        if v.startswith("CRASH") and kind.startswith(("UB:member", "SEGV-null", "UB:reference_binding_to_null")):
-            sites = sorted(a.split(":", 1)[1] for a in ana if a != "ok")
+        return "C01-Kflatten-after-failed-resolve", "flattenModel dies (%s) after resolveImports returned false" % top
+    gate = {"A": "V", "FA": "FV", "Gc": "V", "Gp": "V", "FGc": "FV", "FGp": "FV"}.get(stage)
+    if gate and d.get(gate, "i0") == "i0":
+        if stage in ("A", "FA"):
+            if v.startswith("THROW(St16invalid_argument)") and "invalid_argument" in pw:
+                return "C01-Kstod-power-exponent", "uncaught std::invalid_argument from the power-exponent evaluation"
+            if v.startswith("THROW(St12out_of_range)") and "out_of_range" in pw:
+                return "C01-Kstod-power-exponent", "uncaught std::out_of_range from the power-exponent evaluation"
+        if stage in ("A", "FA") and v.startswith("CRASH") and kind.startswith(NULL_KINDS) and "analyseEquationUnits" in frames \
+                and "exponent-unavailable" in pw and not any(a != "ok" for a in ana):
+            return "C01-Kunits-exponent-unavailable", "analyseEquationUnits reads a missing operand after an exponent whose value is not available"
+        if v.startswith("CRASH") and kind.startswith(NULL_KINDS):
+            sites = sorted(a.split(":", 1)[1] for a in ana if a != "ok" and (stage in ("A", "FA") or a.startswith("may:")))
             if sites:
-                return finding_for_site(sites[0]), "validator accepts, analyser dies (%s; model: %s)" % (frames.split(";")[0], ",".join(sites))
-    if stage in ("Gc", "Gp", "FGc", "FGp") and v.startswith("CRASH"):
-        ana, pw = model_verdicts(mdl, mine, ctx.workdir)
-        sites = sorted(a.split(":", 1)[1] for a in ana if a.startswith("may:"))
-        if sites:
-            return finding_for_site(sites[0]), "validator and analyser accept, generator dies (%s; model: %s)" % (frames.split(";")[0], ",".join(sites))
+                return finding_for_site(sites[0]), "validator accepts, %s dies (%s; model: %s)" % (
+                    "analyser" if stage in ("A", "FA") else "generator", top, ",".join(sites))
     return None, None
 
 
 def pipeline_part(ctx, drv, mdl, quick):
     inputs = make_inputs(ctx, quick)
     envp = env_with(ASAN_OPTIONS=ASAN, UBSAN_OPTIONS=UBSAN)
-    lines = ["%s\t%s\tsp\t" % (p, b) for p, b, _, _ in inputs]
     t0 = time.time()
-    outs = run_sharded(drv, "pipe", lines, ctx.workdir, "pipe", envp)
+    outs = run_sharded(drv, "pipe", ["%s\t%s\tsp\t" % (p, b) for p, b, _, _ in inputs], ctx.workdir, "pipe", envp)
     ctx.log("pipeline: %d inputs in %.0fs" % (len(inputs), time.time() - t0))
     hist = {"clean": 0}
     label_hist = {}
     stage_hist = {}
-    nviol = 0
     nontrivial = 0
-    reruns = 0
-    for (path, base, label, origin), line in zip(inputs, outs):
+    # work items: [input index, mode, segment or None (= needs a run), skip list, slow flag]
+    work = []
+    for k, ((path, base, label, origin), line) in enumerate(zip(inputs, outs)):
         lab0 = label.split("+")[0].split(":")[0]
         label_hist[lab0] = label_hist.get(lab0, 0) + 1
-        # a line holds the strict run and, if that did not die, the permissive run
-        todo = []
+        d0, _, _ = tokens(line.split("[p]")[0])
+        if d0.get("P") == "i0":
+            nontrivial += 1
         if line.endswith("END") and "[p]" in line:
             hist["clean"] += 1
-            d, order, _ = tokens(line.split("[p]")[0])
-            if d.get("P") == "i0":
-                nontrivial += 1
             continue
         segs = line.split("[p]")
-        todo.append(("s", segs[0]))
-        if len(segs) > 1:
-            todo.append(("p", segs[1]))
-        else:
-            todo.append(("p", None))
-        for mode, seg in todo:
-            skip = []
-            for attempt in range(8):
-                if seg is None:
-                    lf = os.path.join(ctx.workdir, "rerun.in")
-                    with open(lf, "w") as f:
-                        f.write("%s\t%s\t%s\t%s\n" % (path, base, mode, ",".join(skip)))
-                    rc, o = vf.sh([drv, "pipe", lf], timeout=300, env=envp)
-                    seg = o.strip().split("\n")[-1] if o.strip() else "<missing>"
-                    reruns += 1
-                d, order, bang = tokens(seg)
-                dead = [k for k in order if is_dead(d[k])]
-                if not dead:
-                    break
-                stage = dead[0]
-                v = d[stage]
-                what = None
-                if v.startswith("TIMEOUT"):
-                    # re-run alone with a generous limit: slowness under load is not a hang
-                    lf = os.path.join(ctx.workdir, "rerun.in")
-                    with open(lf, "w") as f:
-                        f.write("%s\t%s\t%s\t%s\n" % (path, base, mode, ",".join(skip)))
-                    rc, o = vf.sh([drv, "pipe", lf], timeout=400, env=env_with(ASAN_OPTIONS=ASAN, UBSAN_OPTIONS=UBSAN, C01_SECONDS="150"))
-                    seg2 = o.strip().split("\n")[-1] if o.strip() else "<missing>"
-                    reruns += 1
-                    d2, order2, bang2 = tokens(seg2)
-                    dead2 = [k for k in order2 if is_dead(d2[k])]
-                    if not dead2:
-                        hist["slow-but-terminates"] = hist.get("slow-but-terminates", 0) + 1
-                        break
-                    d, order, bang, stage, v, seg = d2, order2, bang2, dead2[0], d2[dead2[0]], seg2
-                fid, text = classify(ctx, drv, mdl, path, base, mode, d, order, bang, stage)
-                stage_hist["%s:%s" % (stage, (fid or "UNLISTED"))] = stage_hist.get("%s:%s" % (stage, (fid or "UNLISTED")), 0) + 1
-                if fid and ctx.known_finding(fid, "%s [%s parse, input %s (%s)]" % (text, "strict" if mode == "s" else "permissive",
-                                                                                   os.path.basename(path), label)):
-                    hist[fid] = hist.get(fid, 0) + 1
-                    skip.append(stage)
-                    if stage in ("A", "FA"):
-                        skip += [x for x in (("Gc", "Gp") if stage == "A" else ("FGc", "FGp")) if x not in skip]
-                    seg = None     # look behind the known crash
-                    continue
-                nviol += 1
-                if nviol <= 5:
-                    content = open(path, "rb").read()
-                    keep = os.path.join(ctx.replaydir, "pipe_%d_input%s" % (nviol, os.path.splitext(path)[1] or ".xml"))
-                    with open(keep, "wb") as f:
-                        f.write(content)
-                    ctx.violation("C01 pipeline: %s parse, stage %s: %s kind=%s frames=%s (input %s, %s)" % (
-                        "strict" if mode == "s" else "permissive", stage, v, bang.get("kind"), bang.get("frames"), os.path.basename(path), label),
-                        "pipe_%d.json" % nviol,
-                        {"mode": "pipe", "input_file": keep, "base": base, "parser": mode, "skip": skip, "label": label, "origin": origin,
-                         "line": seg, "stage": stage, "classified": fid})
-                break
+        work.append([k, "s", segs[0], [], False])
+        work.append([k, "p", segs[1] if len(segs) > 1 else None, [], False])
+    dead_inputs = sorted(set(w[0] for w in work))
+    descs = dict(zip(dead_inputs, describe_many(drv, [(inputs[k][0], inputs[k][1]) for k in dead_inputs], ctx.workdir)))
+    verds = dict(zip(dead_inputs, model_verdicts_many(mdl, [descs[k] for k in dead_inputs], ctx.workdir)))
+    nviol = 0
+    reruns = 0
+    for rnd in range(10):
+        # 1. run what needs running
+        torun = [w for w in work if w[2] is None]
+        for slow in (False, True):
+            batch = [w for w in torun if w[4] == slow]
+            if batch:
+                lines = ["%s\t%s\t%s\t%s" % (inputs[w[0]][0], inputs[w[0]][1], w[1], ",".join(w[3])) for w in batch]
+                e = env_with(ASAN_OPTIONS=ASAN, UBSAN_OPTIONS=UBSAN, C01_SECONDS="200") if slow else envp
+                o = run_sharded(drv, "pipe", lines, ctx.workdir, "rerun", e, nsh=(4 if slow else None))
+                reruns += len(batch)
+                for w, seg in zip(batch, o):
+                    w[2] = seg
+        # 2. look at every segment
+        nxt = []
+        for w in work:
+            k, mode, seg, skip, slow = w
+            path, base, label, origin = inputs[k]
+            d, order, bang = tokens(seg)
+            dead = [x for x in order if is_dead(d[x])]
+            if seg == "<missing>":
+                dead, d, order = ["driver"], {"driver": "CRASH(no-output)"}, ["driver"]
+            if not dead:
+                if slow:
+                    hist["slow-but-terminates"] = hist.get("slow-but-terminates", 0) + 1
+                continue
+            stage = dead[0]
+            v = d[stage]
+            if v.startswith("TIMEOUT") and not slow:
+                nxt.append([k, mode, None, skip, True])      # once more, alone-ish and with a generous limit
+                continue
+            fid, text = classify(mode, d, bang, stage, descs.get(k, []), verds.get(k, {}))
+            key = "%s:%s" % (stage, fid or "UNLISTED")
+            stage_hist[key] = stage_hist.get(key, 0) + 1
+            if fid and ctx.known_finding(fid, "%s [%s parse, input %s (%s)]" % (text, "strict" if mode == "s" else "permissive",
+                                                                               os.path.basename(path), label)):
+                hist[fid] = hist.get(fid, 0) + 1
+                skip = skip + [stage]
+                if stage in ("A", "FA"):
+                    skip += [x for x in (("Gc", "Gp") if stage == "A" else ("FGc", "FGp")) if x not in skip]
+                if rnd < 9:
+                    nxt.append([k, mode, None, skip, False])  # look behind the known crash
+                continue
+            nviol += 1
+            if nviol <= 5:
+                keep = os.path.join(ctx.replaydir, "pipe_%d_input%s" % (nviol, os.path.splitext(path)[1] or ".xml"))
+                with open(keep, "wb") as f:
+                    f.write(open(path, "rb").read())
+                ctx.violation("C01 pipeline: %s parse, stage %s: %s kind=%s frames=%s (input %s, %s)" % (
+                    "strict" if mode == "s" else "permissive", stage, v, bang.get("kind"), bang.get("frames"), os.path.basename(path), label),
+                    "pipe_%d.json" % nviol,
+                    {"mode": "pipe", "input_file": keep, "base": base, "parser": mode, "skip": skip, "label": label, "origin": origin,
+                     "line": seg, "stage": stage, "classified": fid})
+        work = nxt
+        if not work:
+            break
     ctx.log("pipeline: %s; deaths by stage: %s; re-runs %d" % (hist, stage_hist, reruns))
     return len(inputs), hist, label_hist, stage_hist, nontrivial
 
